@@ -6,8 +6,8 @@ P = {
  'C01': ("`parse_total` (Props/C01): for every valid-UTF-8 input and every option value the model of parse reaches no panic site (every unwrap/expect/index/slice/unreachable!/from_utf8 of tokenizer, builder and final checks is an explicit panic outcome) and exhausts no loop fuel (termination; entity recursion bounded by the loop detector). `tokenizer_total`, `tokens_are_slices`.",
          "native stack bytes, wall time and allocation are runtime facts: observed by isolated child runs at scale (nesting 200 000, billion laughs), not proved"),
  'C02': ("`parsed_wf`: the arena of every parsed document satisfies the whole invariant WF (one parentless root, parents precede children, pre-order ids, prev_sibling/last_child/next_subtree determined by the parent links, no adjacent Text siblings); `parsed_single_root`: exactly one Element and no Text child of the root. `wfArenaB_iff`: the executable form evaluated on the implementation's arena is that invariant.", ""),
- 'C03': ("`tree_mirrors_document`, `every_rendering_gives_the_tree`, `rendering_insensitive`: for EVERY abstract document of the class Spec.Canon.ok (any shape, elements with attributes, comments, text) and every legal choice of white space inside tags, quote characters and <e/> vs <e></e>, parsing the rendering yields exactly the document's tree; XML 1.0 name tables; token kinds by region; one token one node.",
-         "names beyond a-z, PIs, namespaces, BOM/declaration/DOCTYPE variation in the round trip are decided by correspondence with random renderings"),
+ 'C03': ("`tree_mirrors_document`, `every_rendering_gives_the_tree`, `rendering_insensitive`: for EVERY abstract document of the class Spec.Canon.ok (any shape, elements with attributes, comments, text) and every legal choice of white space inside tags, quote characters and <e/> vs <e></e>, parsing the rendering yields exactly the document's tree; `whole_document_mirrors` / `prolog_variation_insensitive`: for every whole document (optional BOM, XML declaration, comments and PIs around an optional DOCTYPE and around the root element, PIs inside it, white space after every top-level item) declaration, DOCTYPE, BOM and white space yield no nodes, prolog/epilog Misc are children of the root node in source order, PI targets and values are the source strings; XML 1.0 name tables; token kinds by region; one token one node.",
+         "names beyond a-z, namespaces and internal-subset variation in the round trip are decided by correspondence with random renderings"),
  'C04': ("`decode_pieces` (text buffer = XML 2.11 decoding for every sequence of literal runs and references), `text_run_decoded` (the builder's text loop end to end at entity depth 0), CDATA = lineEnds, one text node per run (`parsed_no_adjacent_text` in C02).",
          "runs containing general entity references: correspondence + exhaustive piece enumeration"),
  'C05': ("`attribute_value_normalized` (normalize_attribute end to end at depth 0 = XML 3.3.3), `pushLit_spec`, `charref_kept`, `routing` (xmlns attributes never reach the attribute list, others in source order).",
@@ -23,9 +23,9 @@ P = {
  'C10': ("`parsed_api_total`: every accessor, lookup and iterator is total (no panic, terminates within nodes.len() steps) on every node of every parsed document; `textPosAt_never_panics`.", "Debug formatting at scale: observed"),
  'C11': ("`traversals_are_functions_of_the_tree` (children, ancestors, siblings, descendants, first/last child of every node of every parsed document equal their specification on the abstract tree), `text_and_tail_of_parsed`, `root_element_of_parsed`, `next_sibling_of_parsed`, `children_deque` (Children is a deque of the child list under every interleaving of next/next_back), slice iterators, descendants range.", ""),
  'C12': ("lookups agree with enumeration: `findAttr_spec`, `attributeNode_first`, `hasTagName_iff`, `lookups_first`, `attrEq_iff`.", ""),
- 'C13': ("`parsed_ranges_valid` (every node and attribute range of every parsed document is ordered, inside the input and on character boundaries, entity-expanded nodes included), `parsed_ranges_designate` (an element's slice runs from its '<' to the '>' of its end tag with its name after '<', a comment's is <!--text-->, a PI's <?target...?>, a borrowed text is its slice or its CDATA section), `parsed_ranges_nested` (default options: child inside parent, siblings disjoint and ascending), `shift_equivariance` (k spaces in front shift every range and borrowed offset by exactly k and change nothing else).",
+ 'C13': ("`parsed_ranges_valid` (every node and attribute range of every parsed document is ordered, inside the input and on character boundaries, entity-expanded nodes included), `parsed_ranges_designate` (an element's slice runs from its '<' to the '>' of its end tag with its name after '<', a comment's is <!--text-->, a PI's <?target...?>, a borrowed text is its slice or its CDATA section), `parsed_ranges_nested` (default options: child inside parent, siblings disjoint and ascending), `shift_equivariance` (k spaces in front shift every range and borrowed offset by exactly k and change nothing else; `shift_equivariance_line_breaks` for line feeds).",
          "nesting with allow_dtd=true (entity-expanded nodes): correspondence"),
- 'C14': ("`textPosAt_total`, clamp and floor to a character boundary, row/column bounds, shift of rows/columns; `error_position_from_input` / `error_position_in_bounds` / `error_column_le_line`: every error parse returns carries the (row, col) of some offset of the input, 1 <= row <= lines, 1 <= col <= characters of that line + 1, entity expansion included.", "error payload strings and the movement of errors under inserted white space: correspondence + shift special run"),
+ 'C14': ("`textPosAt_total`, clamp and floor to a character boundary, row/column bounds, shift of rows/columns; `error_position_from_input` / `error_position_in_bounds` / `error_column_le_line`: every error parse returns carries the (row, col) of some offset of the input, 1 <= row <= lines, 1 <= col <= characters of that line + 1, entity expansion included; `error_moves_with_spaces` / `error_moves_with_line_breaks`: k spaces (line feeds) in front give the same error, same kind and payload, with column (row) + k.", "that payload strings are the ones written in the source, and white space inserted later in the prolog: correspondence + shift special run"),
  'C15': ("`cap` (an accepted document never has more nodes than the limit) and `monotone` (raising the limit never changes a result other than NodesLimitReached), for every input.", ""),
  'C16': ("`dichotomy` (allow_dtd=false gives DtdDetected or exactly the allow_dtd=true result), `no_entity_tokens_by_default`, `no_entity_declared_or_expanded`, `content_never_exceeds_input` (with allow_dtd=false the total length of all text, names and values of the tree is at most the input length: no amplification).", ""),
  'C17': ("equality, total order consistent with equality, document grouping and hash coherence of (document address, id).", "the address order itself belongs to the runtime"),
